@@ -189,6 +189,17 @@ def main():
                 continue
             if v in ('unsat',):
                 continue
+            if v == 'concrete-fail':
+                os.makedirs(replay_dir, exist_ok=True)
+                path = os.path.join(replay_dir, '%s.json' % job['harness'].replace(':', '_'))
+                json.dump(dict(x['record'], pkg=job['pkg'], label=x['label']), open(path, 'w'), indent=1)
+                desc = '%s %s %s' % (job['harness'], x['label'], x['detail'])
+                k = next((k for k in known if k['match'] and k['match'] in desc), None)
+                if k is not None:
+                    known_hits.append((k, desc, path))
+                else:
+                    violations.append((desc, path, x['detail']))
+                continue
             if v in ('sat', 'sat-abstract'):
                 os.makedirs(replay_dir, exist_ok=True)
                 rec = x['record']
